@@ -452,9 +452,10 @@ def _build_loop_body_graph(
             tmpl_in,
             name_hint="loop_const_out",
         )
-        dims = getattr(getattr(tmpl_val, "shape", IRShape(())), "dims", None)
-        tuple_dims = tuple(dims) if dims is not None else tuple()
-        _stamp_type_and_shape(passthrough, tuple_dims)
+        # An unknown template shape must stay unknown (see the Loop outputs below).
+        dims = getattr(getattr(tmpl_val, "shape", None), "dims", None)
+        if dims is not None:
+            _stamp_type_and_shape(passthrough, tuple(dims))
         _ensure_value_metadata(body_ctx, passthrough)
         const_outputs.append(passthrough)
 
@@ -465,9 +466,10 @@ def _build_loop_body_graph(
             tmpl_in,
             name_hint="loop_cond_const_out",
         )
-        dims = getattr(getattr(tmpl_val, "shape", IRShape(())), "dims", None)
-        tuple_dims = tuple(dims) if dims is not None else tuple()
-        _stamp_type_and_shape(passthrough, tuple_dims)
+        # An unknown template shape must stay unknown (see the Loop outputs below).
+        dims = getattr(getattr(tmpl_val, "shape", None), "dims", None)
+        if dims is not None:
+            _stamp_type_and_shape(passthrough, tuple(dims))
         _ensure_value_metadata(body_ctx, passthrough)
         cond_const_outputs.append(passthrough)
 
